@@ -25,7 +25,9 @@ class Unsupported(Exception):
 
 
 class Resolver:
-    def __init__(self, objs=None):
+    def __init__(self, objs=None, name_ids=False):
+        # name_ids: fields are numbered by their NAME (crc32) instead of by position, as the dissector programs' variables are (C17, Thm/C17d.lean)
+        self.name_ids = name_ids
         self.objs = objs or wowm.load_tree(os.path.join(REPO, "wow_message_parser/wowm"))
         self.by_name = {}
         for o in self.objs:
@@ -161,6 +163,9 @@ class Resolver:
             if m["k"] == "field":
                 vid = counter[0]
                 counter[0] += 1
+                if getattr(self, "name_ids", False):
+                    import zlib
+                    vid = zlib.crc32(m["name"].encode()) & 0x3FFFFFFF
                 t = self.ty(m["ty"], target, scope)
                 scope[m["name"]] = vid
                 if m["value"] == "self.size":
